@@ -26,7 +26,7 @@ RULE = ('split_path: directed corpus (docstring examples, boundaries), complete 
         'enumeration of pairs of items of length <= 2 over {comma, quote, backslash, space, a, n} and triples of '
         'length <= 1, seeded lists of 1..5 items over printable ASCII, damaged texts per malformation type; '
         'distinct by text')
-REQUIRED_CLAUSES = ['path-flag-by-truth-value', 'path-under-warnings-as-errors', 'malformed-quoting-rejected-in-bounded-work', 'path-history-independent', 'concurrent-calls-answer-as-alone', 'under-lazy-translation', 'path-keyword-call', 'path-must-accept', 'path-must-reject', 'path-min-gt-max', 'path-no-leading-slash',
+REQUIRED_CLAUSES = ['equal-valued-arguments-in-any-order', 'str-subclass-answered-as-its-characters', 'valid-calls-after-rejected-calls-answer-as-before', 'under-pyparsing-inline-literals-suppressed', 'path-flag-by-truth-value', 'path-under-warnings-as-errors', 'malformed-quoting-rejected-in-bounded-work', 'path-history-independent', 'concurrent-calls-answer-as-alone', 'under-lazy-translation', 'path-keyword-call', 'path-must-accept', 'path-must-reject', 'path-min-gt-max', 'path-no-leading-slash',
                     'path-empty-leading-segment', 'path-trailing-slash', 'path-rest-with-last',
                     'path-none-padding', 'path-dont-care-shape', 'path-result-shape',
                     'commas-round-trip', 'commas-return-type', 'commas-must-reject', 'commas-dont-care']
